@@ -8,7 +8,7 @@ import tempfile
 from runner import Judge
 
 CH = {'a': 'a', ' ': ' ', '{': '{', '}': '}', '0': '0', 'x': 'x', '%': '%', 'e': 'é', 'b': '\\', '\n': '\n',
-      '(': '(', ')': ')'}
+      '(': '(', ')': ')', 'h': '-'}
 SEG = {'n': 'n', 'm': 'm', 'u': 'üñ', 'o+': 'out_old', '.': '.', '..': '..', '': '', 'x': 'x', 'k': 'k', 'c': 'c', 's': 's'}
 
 
@@ -166,6 +166,10 @@ class EmitJudge(Judge):
                                     b.add_named_placeholder(o['n'], text(o['s']))
                                 else:
                                     b.add_positional_placeholder(text(o['s']))
+                            elif op == 'wrap':
+                                b.emit_wrapped_text(' '.join(text(w) for w in o['ws']), prefix=text(o['p']),
+                                                    initial_prefix=text(o['ip']), subsequent_prefix=text(o['sp']),
+                                                    width=o['w'], break_long_words=o['blw'], break_on_hyphens=o['hy'])
                             elif op == 'list':
                                 b.generate_multiline_list(['a0'] * o['k'], before='a', delim=('(', ')'), sep='%',
                                                           compact=o['compact'])
